@@ -641,7 +641,9 @@ import contracts.C13_bounded as _B
 BOUNDED = [Bounded("spectrum_interpolation", _B.spectrum_interpolation), Bounded("dataset_axes_rank_1_to_4", _B.dataset_axes,
                    "ranks 1..4, every axis position, passive sizes 1..3 (unequal), pass-through, operands unmodified - through interpolate_dataset_along_axis"),
            Bounded("time_axes_and_grid", _B.time_axes_and_grids,
-                   "datetime64 axes (to_datetime64 of the targets), interpolate_dataset_grid applies the coordinates in order and forwards nearest_neighbour")]
+                   "datetime64 axes (to_datetime64 of the targets), interpolate_dataset_grid applies the coordinates in order and forwards nearest_neighbour"),
+           Bounded("dataset_storage_types", __import__("contracts.C13_dtype_bounded", fromlist=["x"]).dataset_storage_types,
+                   "integer / unsigned / float32 variables give the float64 piecewise-linear value (the verifier reads every number as a real)")]
 TRUSTED = ["targets and grid nodes are finite (no NaN / inf coordinates); infinite data values are outside the model (contract option finite_reals)",
            "possibly-NaN floats are pairs (real, flag) with IEEE propagation through + - * / and comparisons (pyvc.terms.XR)",
            "np.searchsorted on a sorted array returns the number of cells < v (left) / <= v (right); sortedness is an obligation",
